@@ -330,4 +330,4 @@ def run(ctx):
     if not ctx.only: check_local(ctx, sc, roots + croots)
     ctx.floor('iterator states analysed', sum(len(v) for v in kinds_states.values()), 220 if quick else 2992)
     ctx.floor('vector kinds with a model-checked iterator', len(kinds_states), 11 if quick else 13)
-    ctx.floor('conversion / view roots', len(croots), 331)
+    ctx.floor('conversion / view roots', len(croots), 373)
